@@ -404,3 +404,30 @@ def ub_sites(stderr_texts):
             e = out.setdefault(key, {'message': msg, 'site': site, 'count': 0})
             e['count'] += 1
     return out
+
+
+def generic_replay(pid, path):
+    """Re-execute the recorded check (same tier and seed) on the current tree with evidence/replays redirected to a scratch
+    directory; exit status 1 iff the recorded violation key is reported again."""
+    import tempfile, shutil
+    rec = json.load(open(path))
+    key, tier, seed = rec.get('key'), rec.get('tier', 'quick'), rec.get('seed', 0)
+    out = tempfile.mkdtemp(prefix='verif-replay-')
+    try:
+        env = dict(os.environ, VERIF_OUT=out, VERIF_SEED=str(seed))
+        r = subprocess.run([os.path.join(VERIF, 'bin', 'check'), pid, '--tier', tier], env=env, stdout=subprocess.PIPE, stderr=subprocess.PIPE, text=True)
+        again = []
+        rdir = os.path.join(out, 'replays', pid)
+        if os.path.isdir(rdir):
+            for f in os.listdir(rdir):
+                try:
+                    again.append(json.load(open(os.path.join(rdir, f))))
+                except Exception:
+                    pass
+        hit = [a for a in again if a.get('key') == key]
+        print('replay of %s: re-ran %s tier=%s seed=%s on the current tree (exit %d): key %s %s' % (os.path.basename(path), pid, tier, seed, r.returncode, key, 'REPRODUCED' if hit else 'not reproduced'))
+        if hit:
+            print(json.dumps(hit[0].get('cases', [])[:2], indent=1, default=str)[:2000])
+        return 1 if hit else 0
+    finally:
+        shutil.rmtree(out, ignore_errors=True)
